@@ -187,7 +187,9 @@ def analyse(arch, endian, item, specfn, k=4, timeout_ms=20000, observables=None,
         if u is not None and u is not False:
             d = z3.And(z3.Not(u), d)
         diffs[n] = d
-    diffs["mem"] = fst.mem != spec.mem
+    # memory: two arrays differ iff they differ at some address (extensionality) - pointwise form is much easier for z3
+    qaddr = z3.BitVec("mem_probe!q", 64)
+    diffs["mem"] = z3.Select(fst.mem, qaddr) != z3.Select(spec.mem, qaddr)
     if spec.next_pc is None:
         if pc_il is not None:
             diffs["pc"] = z3.Not(nosucc)
